@@ -3,8 +3,12 @@
 (between the markers <!-- SELFTEST-TABLE --> and <!-- /SELFTEST-TABLE -->)."""
 import re, json, os
 rows = []
+prov = ''
 for line in open('/verif/selftest/last_run.txt'):
     line = line.rstrip('\n')
+    if line.startswith('# run:'):
+        prov = line[len('# run:'):].strip()
+        continue
     m = re.match(r'(KILLED|MISSED|UNCLAIMED|ERROR)\s+(\S+) \((\S+?)[ )](.*)', line)
     if not m:
         if line.startswith('selftest:'):
@@ -18,12 +22,14 @@ for line in open('/verif/selftest/last_run.txt'):
             what = json.load(open(mf)).get('summary', '')[:110].replace('|', '/').replace('\n', ' ')
     obl = ''
     mm = re.search(r'(input-found|no-input): (\S+)', rest)
-    if mm:
+    if mm and mm.group(2) == 'VIOLATION':
+        obl = 'bounded stand-in (failing input reported)'
+    elif mm:
         obl = '`' + mm.group(2) + '`' + (' (failing input replayed on the real code)' if mm.group(1) == 'input-found' else ' (no-failing-input-found)')
-    rows.append((name, prop, status, obl, what))
-out = ['| change | property | result | first failing obligation | what the change does |', '|---|---|---|---|---|']
+    rows.append((name, prop, status, obl, prov, what))
+out = ['| change | property | result | first failing obligation | run | what the change does |', '|---|---|---|---|---|---|']
 for r in rows:
-    out.append('| %s | %s | %s | %s | %s |' % r)
+    out.append('| %s | %s | %s | %s | %s | %s |' % r)
 out.append('')
 out.append(summary if 'summary' in dir() else '')
 p = '/verif/DESIGN.md'
